@@ -259,6 +259,10 @@ func (v *LogScopeVariables) Get(s context.Scope, name string) (value.Value, erro
 		if v := lookupOverride(v.ctx, name); v != nil {
 			return v, nil
 		}
+		// 1 until the VCL assigns it (vcl_recv reads the same field)
+		if v.ctx.SegmentedCacheingBlockSize != nil && v.ctx.SegmentedCacheingBlockSize.Value != 0 {
+			return v.ctx.SegmentedCacheingBlockSize, nil
+		}
 		return &value.Integer{Value: 1}, nil
 	case SEGMENTED_CACHING_CANCELLED: // nolint: misspell
 		if v := lookupOverride(v.ctx, name); v != nil {
